@@ -1,8 +1,7 @@
 (** C01 - the property oracle of C01/Corr.v is sound: whenever it returns 0 on an observed output,
     that output satisfies the Prop-level statements (validation parts are the consecutive blocks, every
     (training, validation) pair is a permutation of the samples with records attached to their targets,
-    the dataset is restored).  The cross-validation oracle compares floats with a tolerance and has no
-    Prop-level counterpart here. *)
+    the dataset is restored).  The cross-validation part of the oracle is in C01/CvSound.v. *)
 From Coq Require Import List Arith NArith Bool Lia Permutation.
 From LinfaVerif Require Import Common.Num Common.Run C01.Model C01.Corr.
 Import ListNotations.
@@ -130,7 +129,7 @@ Theorem oracle_ifold_sound (ir : ifres) : case_in_domain c -> oracle_ifold c (So
   (forall i it, nth_error (ir_items ir) i = Some it ->
      is_block_of_case i (ii_vr it) (ii_vt it) /\
      is_partition_of_case (ii_ar it) (ii_at it) (ii_vr it) (ii_vt it)) /\
-  ir_rec ir = c_recs c /\ ir_tgt ir = c_tgts c.
+  ir_rec ir = c_recs c /\ ir_tgt ir = c_tgts c /\ ir_outside_ok ir = true.
 Proof.
   intros Hd H. unfold oracle_ifold in H. rewrite (domain_bool Hd) in H.
   apply N.eq_add_0 in H as [H H4]. apply N.eq_add_0 in H as [H H3]. apply N.eq_add_0 in H as [H1 H2].
@@ -139,7 +138,7 @@ Proof.
   - intros i it Hp. split.
     + apply valid_is_block_sound. apply (forall_i_sound _ _ 0 H2 i it Hp).
     + apply split_is_partition_sound. rewrite forallb_forall in H3. apply H3. eapply nth_error_In; eauto.
-  - apply andb_true_iff in H4 as [H4 _]. apply andb_true_iff in H4 as [H4 H5].
+  - apply andb_true_iff in H4 as [H4 H6]. apply andb_true_iff in H4 as [H4 H5].
     apply lN_eqb_eq in H4, H5. auto.
 Qed.
 End Sound.
@@ -148,7 +147,7 @@ End Sound.
 Definition ex_case : case :=
   {| c_id := 0%N; c_n := 5%N; c_w := 1%N; c_tdim := 0%N; c_k := 2%N;
      c_recs := (runs [(1, 5)])%N; c_tgts := (runs [(11, 5)])%N;
-     c_fold := []; c_ifold := []; c_chunks := []; c_cv := [] |}.
+     c_fold := []; c_ifold := []; c_chunks := []; c_cv := []; c_cv32 := []; c_lay := [] |}.
 Definition ex_fold : list foldpair :=
   [FP (A 3 1 [(3, 3)])%N (A 3 1 [(13, 3)])%N (A 2 1 [(1, 2)])%N (A 2 1 [(11, 2)])%N;
    FP (A 3 1 [(1, 2); (5, 1)])%N (A 3 1 [(11, 2); (15, 1)])%N (A 2 1 [(3, 2)])%N (A 2 1 [(13, 2)])%N].
